@@ -104,3 +104,52 @@ def decode(data):
         return (cls.__name__, st['v'], tuple(refs), len(st['pad']))
     except Exception:
         return None
+
+
+# ------------------------------------------------------------ C10 classes
+
+CR_LOG = []     # (old, committed, new) as seen by resolvers, semantic form
+
+
+def ref_sem(r):
+    """(oid, database_name, weak) of a reference as a resolver sees it."""
+    return (getattr(r, 'oid', None), getattr(r, 'database_name', None),
+            bool(getattr(r, 'weak', False)))
+
+
+def cr_sem(state):
+    return (state.get('v'), tuple(ref_sem(r) for r in state.get('refs', ())),
+            state.get('mode'))
+
+
+class CR(Persistent):
+    """Resolver scripted through the object's own state: mode 'merge' does a
+    three-way merge of the counter, 'conflict' raises ConflictError, 'error'
+    raises AttributeError."""
+
+    def _p_resolveConflict(self, old, committed, new):
+        CR_LOG.append((cr_sem(old), cr_sem(committed), cr_sem(new)))
+        mode = new.get('mode')
+        if mode == 'conflict':
+            from ZODB.POSException import ConflictError
+            raise ConflictError
+        if mode == 'error':
+            raise AttributeError('scripted resolver failure')
+        res = dict(new)
+        res['v'] = committed['v'] + new['v'] - old['v']
+        return res
+
+
+class CRarity(Persistent):
+    """Resolver with the wrong arity."""
+
+    def _p_resolveConflict(self, old, committed):
+        return committed
+
+
+class NA(Persistent):
+    """A class with __getnewargs__: references to it are stored as bare
+    oids."""
+
+    def __getnewargs__(self):
+        return ()
